@@ -156,6 +156,8 @@ def run_case(case):
                     cur = sut.outcome_of_exception(e)
             COUNTERS["combo:%s/%s" % (backend or "auto", sname)] += 1
             n += 1
+            if sname == "symbolic" and first is not None and first[2]["kind"] == "inconsistent":
+                continue   # no number exists; the symbolic semiring cannot decide that an expression is zero
             if sname == "symbolic" and cur["kind"] == "ok":
                 conv = {}
                 for k, v in cur["result"].items():
